@@ -10,6 +10,7 @@ A_COMMON = [
     "A-TM: ABCI calls are serial (sync.Mutex/RWMutex are no-ops in the executor)",
     "A-SUPPLY: every single voting power <= 2^55 (so power*100 and sums of a few powers fit int64)",
     "formatting/logging are not subjects: fmt.Sprintf/Errorf produce opaque strings when arguments are symbolic",
+    "A-CLOCK: time.Now (and tendermint's time.Now) returns an arbitrary instant between 2020 and 2096, not earlier than the previous reading on the path (or exactly the instant a harness sets with zzverif.ClockStart/SetClock; natively SetClock waits for the real clock)",
 ]
 
 LEDGER = P + "ledger."
@@ -29,8 +30,9 @@ CHECKS = {
         "quick": [
             {"name": NODE + "ZZ_C17_E12", "reach": ["E12 succeeded", "E12 failed", "E12 end", "E12 native tx to contract"], "bound": "contracts deployed in block 3: R (pays the funded account X one unit, then REVERTs) and P in {STOP | call(third,1) STOP | call(third,1) REVERT | call(third,1) INVALID} with third in {X, R}; block 4: one transaction by the proposer or another account: call of P with symbolic value, plain transfer to P, a deployment with value, or a set-document transaction addressed to P; gas limit symbolic in [10,20999] or [300000,2^24]; then a read-only call at the committed height", "validate": 40},
             {"name": NODE + "ZZ_C17_E5", "reach": ["E5 setter succeeded", "E5 setter failed", "E5 end"], "bound": "storage-cell contract (program 7: RETURN slot 0 / slot 0 := calldata) deployed in block 3; three setter transactions with values out of {0,1,2}, by two senders, one of them (any) with a symbolic gas limit in [21000,2^24], the others with 200000, distributed over blocks 4 and 5 in all three ways; outcome, exact gas used (intrinsic + code + SSTORE per EIP-2929/2200/3529 - refund capped at 1/5), fee, nonce; storage read back by read-only calls at every committed height", "validate": 40},
+            {"name": NODE + "ZZ_C17_E6", "reach": ["E6 end"], "bound": "factory contract (program 8: CREATE a child with empty code, RETURN its address) called in 2 or 3 separate transactions, in one block or one per block; return data = CreateAddress(factory, k), native nonces of factory and children = the EVM's", "validate": 12},
         ],
-        "bounds": "7 hand-assembled programs, call depth <= 3, one contract transaction (E12) or three on one storage cell (E5)",
+        "bounds": "8 hand-assembled programs, call depth <= 3, one contract transaction (E12) or three on one storage cell (E5)",
         "outside": "NOT CLAIMED: equivalence with the reference EVM for every program (logs, code, creates, self-destructs; return data, storage and exact gas only for the storage-cell program 7) - go-ethereum's interpreter, trie and big.Int code are behind the A-EVM stub; only the repository's glue (StateDBWrapper copy-in/copy-out and revert bookkeeping, EVMCtrler.ExecuteTrx, routing in runTrx/postRunTrx, callVM) is executed symbolically, for the call sequences these programs produce",
         "assumptions": A_COMMON + A_STORE + ["A-EVM: state.StateDB = journalled (balance, nonce, storage with dirty/committed layers, refund counter) map with snapshot/revert, address and slot access lists, Finalise; core.ApplyMessage per go-ethereum v1.10.23 state_transition.go with the interpreter replaced by the semantics of the 7 programs; gas left is an arbitrary (per transaction content) value <= limit - intrinsic for programs 0-6 and exactly metered (EIP-2929/2200/3529) for program 7", "A-SIG", "A-HASH"],
     },
@@ -58,9 +60,9 @@ CHECKS = {
             {"name": LEDGER + "ZZ_C01_D3", "reach": ["D3 end"], "bound": "3 ledger keys with symbolic leading bytes: Less is a strict total order, sorting is input-order independent"},
             {"name": NODE + "ZZ_C06_M1", "reach": ["M1 end"], "bound": "node-local mempool / query traffic (twin of C06): one injected CheckTx or Query around block 3", "validate": 4},
             {"name": NODE + "ZZ_C07_R1", "reach": ["R1 end"], "bound": "a replica restarted at a block boundary against one that kept running (twin of C07): 'process' is node-local", "validate": 4},
-            {"name": NODE + "ZZ_C01_D2", "native_repeat": 20, "reach": ["D2 end"], "bound": "twin applications in different data directories; replica A iterates every Go map ascending, replica B descending or rotated; genesis (2 validators in power bands, 3 accounts), 2 empty blocks, block 3 with two transactions from the menu {delegation, transfer, unbonding} with votes, block 4 with a missed vote"},
+            {"name": NODE + "ZZ_C01_D2", "native_repeat": 20, "reach": ["D2 end"], "bound": "twin applications in different data directories; replica A iterates every Go map ascending, replica B descending or rotated; genesis (2 validators in power bands, 3 accounts), 2 empty blocks, block 3 with two transactions from the menu {delegation, transfer, unbonding, deployment with symbolic gas limit} carrying symbolic / clock-relative transaction times, with votes, block 4 with a missed vote"},
         ],
-        "bounds": "D1: all iteration orders for <=3 dirty keys; D2: two fixed alternative orders per map for one block with 2 transactions; wall clock and data directory differ between replicas by construction (the model store's root hash ignores the directory, time.Now is a stub that never reaches an output)",
+        "bounds": "D1: all iteration orders for <=3 dirty keys; D2: two fixed alternative orders per map for one block with 2 transactions; data directory and wall clock differ between replicas: the model store's root hash ignores the directory; every time.Now reading is an arbitrary non-decreasing instant (2020..2096) under the executor, and in D2 the harness drives the clocks (replica B executes block 3 at the same instant as A or 4 s later, the first transaction's own time lies before, between or after)",
         "outside": "all permutations at application level; IAVL's own determinism (A-IAVL); encoding/json key order (A-CODEC); goroutine scheduling (none on the synchronous path: a `go` statement reached from an ABCI call makes the executor report 'unsupported'); contract execution",
         "assumptions": A_COMMON + A_STORE + ["A-SIG", "A-HASH"],
     },
@@ -82,6 +84,7 @@ CHECKS = {
             {"name": NODE + "ZZ_C03_I23", "reach": ["I23 success", "I23 forged rejected", "I23 honest failure"] + OK_ALL, "bound": TXB + "; signature: honest | signed by another key | signed for another chain id | one of 8 fields (amount, nonce, gas, receiver, time, version, sender, payload/gas price) altered after signing"},
             {"name": NODE + "ZZ_C03_I4", "reach": ["I4 end", "I4 honest second tx accepted"], "bound": "an honest transfer (symbolic amount) is delivered; then, in the same or the next block, a second transaction of the same sender (transfer or set-document, symbolic amount, other receiver, the then-current nonce) carrying the FIRST transaction's signature; crypto.Sig2Addr's own body is executed (only the curve recovery under it is a stub)"},
             {"name": NODE + "ZZ_C03_I5", "reach": ["I5 end"], "bound": "twin replicas, 4 validators (stake limiter active); replica B's block 3 starts with a forged transaction (delegation / unbonding / transfer / deployment from the block menu, signed with another account's key, optionally to an address without account), then both deliver the same honest menu transaction; block 4 with one more; transaction results, validator updates and application hashes compared"},
+            {"name": NODE + "ZZ_C03_I6", "reach": ["I6 end", "I6 own chain accepted"], "bound": "after two blocks: nothing / a further Info call / a restart on a copy of the data directory; then a transfer (symbolic amount) signed for this chain, for the empty chain id or for another chain"},
         ],
         "bounds": "one transaction; 8 single-field alterations; one lifted signature after the signed transaction was processed; the RLP encoding is modelled as an injective function of the struct the repository hands to rlp.Encode (its own narrowing casts are executed)",
         "outside": "the cryptography itself (A-SIG); injectivity of go-ethereum's RLP for the encoded struct (A-CODEC); CheckTx (does not verify signatures by design and has no effects - C06)",
@@ -118,6 +121,7 @@ CHECKS = {
         "quick": [
             {"name": NODE + "ZZ_C06_M1", "reach": ["M1 end"], "bound": "twin replicas; genesis with 4 validators (powers symbolic inside disjoint bands, so the stake limiter is active and the ranking fixed), 5 funded accounts, concrete Test1 governance parameters; blocks 1-2 empty; block 3 and block 4 each with one transaction from {delegation A3->A0/A1 of power 1 or 2^41, unstaking of a genesis stake, transfer A3->A4 of symbolic amount, contract deployment by A3}; replica B additionally serves ONE request at one of 5 positions around block 3 (before BeginBlock, before DeliverTx, before EndBlock, before Commit, after Commit): CheckTx of a transaction of the same menu (or of block 3's own transaction) or a Query (account / delegatee / total power / gov params)", "validate": 8},
             {"name": NODE + "ZZ_C06_M2", "reach": ["M2 end", "M2 unbonded and re-bonded"], "bound": "2 validators; block 3 = [A1 unbonds its only stake, A1 bonds again] (a ledger item deleted and re-created in one block); replica B serves a CheckTx of a delegation to A1 (symbolic power) at one of 5 positions of that block; blocks 4 and 5 with votes"},
+            {"name": NODE + "ZZ_C06_M3", "reach": ["M3 end"], "bound": "2 validators, a contract (STOP or the storage cell) deployed in block 2; replica B serves, at one of 4 positions of block 3 (which carries a contract call or nothing), a CheckTx of a transfer to that contract or of a call of it (symbolic value); blocks 3 and 4 compared"},
         ],
         "bounds": "one injected CheckTx/Query in 5 slots, 2 blocks observed (result codes, gas used, validator updates, application hash)",
         "outside": "more than one injected request (one suffices for a first divergence by the unwinding argument of DESIGN section 4/C06); interleavings finer than one ABCI call (the application mutex serialises them); symbolic governance parameters",
@@ -125,7 +129,7 @@ CHECKS = {
     },
     "C19": {
         "quick": [
-            {"name": NODE + "ZZ_C19_Q1", "validate": 40, "reach": ["Q1 end"], "bound": "history of 3 committed blocks (genesis; transfer of a symbolic amount; delegation of symbolic power + reward issuance), block 4 in flight with a delivered transfer and a pending CheckTx; queries account x2, delegatee x2, stakes, stakes/total_power, reward, gov_params at height 0 (latest), 1, 2, 3 and 4 (future), repeated for the past height after block 4 is committed"},
+            {"name": NODE + "ZZ_C19_Q1", "validate": 160, "reach": ["Q1 end"], "bound": "history of 3 committed blocks (genesis; transfer of a symbolic amount; delegation of symbolic power + reward issuance), block 4 in flight with a delivered transfer and a pending CheckTx; queries account x2, delegatee x2, stakes, stakes/total_power, reward, gov_params at height 0 (latest), 1, 2, 3 and 4 (future), repeated for the past height after block 4 is committed"},
             {"name": GOV + "ZZ_C19_Q2", "reach": ["Q2 end"], "bound": "governance controller: one proposal through ledger versions 1 (absent), 2 (voting), 3 (frozen), 4 (applied, removed), stopped after 2, 3 or 4 versions; by-hash proposal query at every height so far and at a future height"},
         ],
         "bounds": "heights 0..h+1 with h = 3; one in-flight block; one pending mempool check",
@@ -157,12 +161,14 @@ CHECKS = {
             {"name": NODE + "ZZ_C09_P2", "reach": ["P2 end"], "bound": "one Query: 11 paths x data length in {0,19,20,32,39,40,41} (vm_call: < 40 only) x height in [-2,5]; then an empty block"},
             {"name": NODE + "ZZ_C09_P3", "reach": ["P3 end"], "bound": TXB + "; delivered in a block or sent to CheckTx", "validate": 6},
             {"name": P + "ctrlers/vm/evm.ZZ_C09_P4", "reach": ["P4 end"], "bound": "the chain's own ecrecover precompile (address 0x01) run directly on call data of 15 lengths around the field boundaries (0..200 bytes), zero-filled with a symbolic recovery byte"},
+            {"name": NODE + "ZZ_C09_P5", "reach": ["P5 end"], "bound": "a validator's proposal carrying one of 13 literal governance-parameter documents (well-formed, oversized decimal / hexadecimal, negative, wrongly typed, truncated), through CheckTx and DeliverTx; literal JSON is outside the codec model, so every explored path is replayed natively (validate = number of paths) and a panic of the real decoder is reported as native divergence", "validate": 40},
         ],
         "thorough": [
             {"name": NODE + "ZZ_C09_P3", "reach": ["P3 end"], "bound": TXB + "; delivered in a block or sent to CheckTx"},
             {"name": NODE + "ZZ_C09_P1", "reach": ["P1 end"], "bound": "as P1small with 7 sender shapes x 7 receiver shapes x 3 signature shapes", "validate": 20},
             {"name": NODE + "ZZ_C09_P2", "reach": ["P2 end"], "bound": "as quick"},
             {"name": P + "ctrlers/vm/evm.ZZ_C09_P4", "reach": ["P4 end"], "bound": "the chain's own ecrecover precompile (address 0x01) run directly on call data of 15 lengths around the field boundaries (0..200 bytes), zero-filled with a symbolic recovery byte"},
+            {"name": NODE + "ZZ_C09_P5", "reach": ["P5 end"], "bound": "a validator's proposal carrying one of 13 literal governance-parameter documents (well-formed, oversized decimal / hexadecimal, negative, wrongly typed, truncated), through CheckTx and DeliverTx; literal JSON is outside the codec model, so every explored path is replayed natively (validate = number of paths) and a panic of the real decoder is reported as native divergence", "validate": 40},
         ],
         "bounds": "one hostile request after genesis + 1-2 empty blocks, 1 validator, 2 funded accounts; field lengths enumerated, numeric fields symbolic over their full range",
         "outside": "panics inside protobuf/RLP/JSON/iavl/go-ethereum on hostile bytes (A-CODEC: decoding is total - error or a well-typed message); vm_call with >= 40 bytes (needs the consensus engine's RPC environment); resource exhaustion; A-SUPPLY (balances < 2^100) and A-GOV (gas price < 2^64) exclude the AmountToPower / fee+amount overflow panics listed in DESIGN appendix B #10/#11",
@@ -185,6 +191,7 @@ CHECKS = {
             {"name": STAKE + "ZZ_C14_S45", "reach": ["S45 end", "S45 jailed"], "bound": "slashing (0..2 pieces of evidence) and downtime jailing from the same arbitrary state, then the bookkeeping invariant"},
             {"name": STAKE + "ZZ_C11_B3", "reach": ["B3 end", "staking ok", "unstaking ok"], "bound": "one delegatee; 3 transactions in one block from {stake to A0 by A0/A2, unstake any existing stake by A0/A2} incl. delete/re-create/modify of the delegatee; then Commit"},
             {"name": STAKE + "ZZ_C11_B4", "reach": ["B4 end", "staking ok", "unstaking ok"], "bound": "the same arbitrary state; one staking / unstaking transaction run in CheckTx mode (Exec == false): delegatee records and the unbonding ledger - in-block view and what the next Commit persists - are unchanged"},
+            {"name": STAKE + "ZZ_C10_U23", "reach": ["U23 end"], "bound": "power queries (twin of C10): 1..3 committed delegatees with symbolic self/delegated power, maxValidatorCnt 1..3; stakes/total_power = sum of all bonded power, stakes/voting_power = sum over the ranked, truncated validator set", "validate": 6},
         ],
         "bounds": "<=2 delegatees x <=3 stakes; 1 step from arbitrary state (B1), 3 steps in one block (B3)",
         "outside": "more stakes per delegatee; stake limiter active (needs >=3 validators)",
@@ -226,6 +233,7 @@ CHECKS = {
             {"name": GOV + "ZZ_C15_G12", "reach": ["G12 accepted", "G12 rejected"], "bound": "2 validators (symbolic power) + 1 outsider as sender; symbolic start/period/applying heights and submission height; 0..2 options; symbolic governance parameters"},
             {"name": GOV + "ZZ_C15_G34", "reach": ["G34 accepted", "G34 rejected"], "bound": "stored proposal: 2 voters (symbolic power, optional earlier vote, optional re-vote), 2 options; one voting tx with arbitrary sender / proposal reference / symbolic choice and height"},
             {"name": GOV + "ZZ_C15_G567", "reach": ["G567 applied", "G567 nothing won", "G567 still open", "G567 common proposal passed"], "bound": "proposal with 3 voters x 2 options (symbolic powers, votes, re-vote), optionally a second proposal (parameter or off-chain 'common' type) due at the same height; EndBlock+Commit at a symbolic height before the applying height, then at the applying height"},
+            {"name": GOV + "ZZ_C15_G8", "reach": ["G8 end", "G8 delivered vote accepted"], "bound": "stored proposal with 2 voters x 2 options (symbolic powers, earlier votes); inside the window one voter's vote is only checked (Exec == false), then the other voter's vote is delivered; consensus view and committed proposal hold delivered votes only"},
         ],
         "bounds": "<=3 voters, <=2 options, <=2 proposals; one life cycle (vote -> close -> apply -> commit)",
         "outside": "the JSON documents of the options themselves (A-CODEC: an option is an arbitrary GovParams value with a chosen subset of fields set); ties between two options that both reach 2/3 (possible only when the recorded total power is < 2); proposals of non-GOVPARAMS type",
